@@ -400,6 +400,43 @@ pub fn generate(kind: &str, tier: &str, seed: u64, shard: u64, nshards: u64, pat
             }
         }
         "dec" => {
+            if shard == 0 {
+                // directed: long runs of SIBLING containers (nesting is about depth, not about how many containers a buffer holds),
+                // also as properties of one object, each followed by nested containers; and arrays around 1024 elements
+                for kind in 0..3u32 {
+                    let sib = |i: usize| -> RV {
+                        match kind {
+                            0 => RV::Obj(vec![(b"k".to_vec(), RV::Num((i as f64).to_be_bytes()))], Some(1)),
+                            1 => RV::Obj(vec![], None),
+                            _ => RV::Arr(vec![RV::Null]),
+                        }
+                    };
+                    let tailv = RV::Obj(vec![(b"o".to_vec(), RV::Arr(vec![RV::Obj(vec![], Some(0)), RV::Undef]))], None);
+                    let mut intent: Vec<RV> = (0..300).map(|i| sib(i)).collect();
+                    intent.push(tailv.clone());
+                    intent.push(RV::Arr(vec![RV::Arr(vec![RV::Bool(true, 1)])]));
+                    let mut bytes = Vec::new();
+                    for v in &intent { rv_enc(v, &mut bytes); }
+                    t.emit(&dec_event("conf", &bytes, &intent));
+                    let props: Vec<(Vec<u8>, RV)> = (0..300).map(|i| (format!("p{}", i).into_bytes(), sib(i))).chain(std::iter::once((b"last".to_vec(), tailv.clone()))).collect();
+                    let intent2 = vec![RV::Obj(props, None), tailv];
+                    let mut bytes2 = Vec::new();
+                    for v in &intent2 { rv_enc(v, &mut bytes2); }
+                    t.emit(&dec_event("conf", &bytes2, &intent2));
+                    cases += 2;
+                }
+                for n in [255usize, 256, 257, 1024, 1025].iter() {
+                    let intent = vec![RV::Arr((0..*n).map(|i| RV::Bool(i % 2 == 0, if i % 2 == 0 { 1 } else { 0 })).collect()), RV::Null];
+                    let mut bytes = Vec::new();
+                    for v in &intent { rv_enc(v, &mut bytes); }
+                    t.emit(&dec_event("conf", &bytes, &intent));
+                    let intent2 = vec![RV::Obj(vec![(b"a".to_vec(), RV::Arr((0..*n).map(|_| RV::Null).collect())), (b"z".to_vec(), RV::Bool(true, 1))], None)];
+                    let mut bytes2 = Vec::new();
+                    for v in &intent2 { rv_enc(v, &mut bytes2); }
+                    t.emit(&dec_event("conf", &bytes2, &intent2));
+                    cases += 2;
+                }
+            }
             for _ in 0..(60 * scale / nshards as usize + 1) {
                 let n = *rng.pick(&[1usize, 1, 2, 3]);
                 let intent: Vec<RV> = (0..n).map(|_| gen_rv(&mut rng, 3)).collect();
